@@ -317,3 +317,29 @@ func init() {
 			Old: "if s := (*c)[i]; s == string(b) {", New: "if s := (*c)[i]; len(s) == len(b) {", Rule: "INTERN-1"},
 	)
 }
+
+func init() {
+	addMutants(
+		// ---- C12/C13/C03/C11: FORMAT-1, WIDTH-1, CASE-SYM
+		Mutant{ID: "format1-store-before-error-check", Props: []string{"C12"}, File: "jsontext/value.go", Func: "Value.format",
+			Old: "\tif err := e.s.WriteValue(*v); err != nil {\n\t\treturn err\n\t}\n\tif !bytes.Equal(*v, e.s.Buf) {\n\t\t*v = append((*v)[:0], e.s.Buf...)\n\t}\n\treturn nil", New: "\terr := e.s.WriteValue(*v)\n\tif !bytes.Equal(*v, e.s.Buf) {\n\t\t*v = append((*v)[:0], e.s.Buf...)\n\t}\n\treturn err", Rule: "FORMAT-1"},
+		Mutant{ID: "format1-compact-drops-preserve", Props: []string{"C12"}, File: "jsontext/value.go", Func: "Value.Compact",
+			Old: "\t\tAllowInvalidUTF8(true),\n\t\tPreserveRawStrings(true),\n\t}, opts)", New: "\t\tAllowInvalidUTF8(true),\n\t}, opts)", Rule: "FORMAT-1"},
+		Mutant{ID: "format1-canonicalize-skips-floats", Props: []string{"C13"}, File: "jsontext/value.go", Func: "Value.Canonicalize",
+			Old: "\t\tCanonicalizeRawFloats(true),\n", New: "", Rule: "FORMAT-1"},
+		Mutant{ID: "format1-sort-with-bytes-compare", Props: []string{"C13"}, File: "jsontext/value.go", Func: "mustReorderObjectsFromDecoder",
+			Old: "slices.SortFunc(*members, objectMember.Compare)", New: "slices.SortFunc(*members, func(x, y objectMember) int { return bytes.Compare(x.name, y.name) })", Rule: "FORMAT-1"},
+		Mutant{ID: "format1-array-not-reordered", Props: []string{"C13", "C12"}, File: "jsontext/encode.go", Func: "encoderState.WriteValue",
+			Old: "\t\t\tpanic(\"BUG: popArray should never fail immediately after pushArray: \" + err.Error())\n\t\t}\n\t\tif e.Flags.Get(jsonflags.ReorderRawObjects) {\n\t\t\tmustReorderObjects(b[pos:])\n\t\t}\n", New: "\t\t\tpanic(\"BUG: popArray should never fail immediately after pushArray: \" + err.Error())\n\t\t}\n", Rule: "FORMAT-1"},
+		Mutant{ID: "format1-number-shortcut-ignores-canonicalize", Props: []string{"C13", "C12"}, File: "jsontext/encode.go", Func: "encoderState.reformatValue",
+			Old: "if n := jsonwire.ConsumeSimpleNumber(src); n > 0 && !e.Flags.Get(jsonflags.CanonicalizeNumbers) {", New: "if n := jsonwire.ConsumeSimpleNumber(src); n > 0 && !e.Flags.Get(jsonflags.CanonicalizeRawInts) {", Rule: "FORMAT-1"},
+		Mutant{ID: "format1-appendformat-drops-src-on-error", Props: []string{"C12"}, File: "jsontext/value.go", Func: "AppendFormat",
+			Old: "\t\treturn append(dst, src...), err", New: "\t\treturn dst, err", Rule: "FORMAT-1"},
+		Mutant{ID: "format1-object-separator-extra-space", Props: []string{"C12"}, File: "jsontext/encode.go", Func: "encoderState.reformatObject",
+			Old: "\t\t\tdst = append(dst, ',')\n\t\t\tif e.Flags.Get(jsonflags.SpaceAfterComma) {", New: "\t\t\tdst = append(dst, e.Indent...)\n\t\t\tdst = append(dst, ',')\n\t\t\tif e.Flags.Get(jsonflags.SpaceAfterComma) {", Rule: "FORMAT-1"},
+		Mutant{ID: "width1-appendquote-ascii-step-in-multibyte", Props: []string{"C11", "C12"}, File: "internal/jsonwire/encode.go", Func: "AppendQuote",
+			Old: "\t\t\tr, rn := utf8.DecodeRune(src[n:])\n\t\t\tn += rn\n", New: "\t\t\tr, rn := utf8.DecodeRune(src[n:])\n\t\t\tn += rn\n\t\t\tif r == '\\u00a0' {\n\t\t\t\ti = n - 1\n\t\t\t\ti += 1\n\t\t\t}\n", Rule: "WIDTH-1"},
+		Mutant{ID: "casesym-number-exponent-lowercase-only", Props: []string{"C01", "C03"}, File: "internal/jsonwire/decode.go", Func: "ConsumeSimpleNumber",
+			Old: "(b[n] != '.' && b[n] != 'e' && b[n] != 'E')", New: "(b[n] != '.' && b[n] != 'e')", Rule: "CASE-SYM"},
+	)
+}
